@@ -4,6 +4,7 @@
 REPO=${1:-/repo}
 OUT=${BASELINE_OUT:-/var/tmp/verif-baseline.json}
 cd $REPO || exit 2
+export BASELINE_REPO=$REPO
 unset GOSUMDB GOTOOLCHAIN
 export GOPROXY=off
 ( for m in . ./plugin/go ./plugin/go/tutorial; do ( cd $REPO/$m && go test -mod=mod -json -vet=off -count=1 -timeout 25m ./... ); done ) > $OUT 2>/dev/null
@@ -17,6 +18,19 @@ for l in open(sys.argv[1],errors='replace'):
     if e.get('Test') and e.get('Action') in('pass','fail','skip'):
         res[e['Package']+'::'+e['Test']]=e['Action']
 bad=[t for t in sorted(want) if res.get(t)!='pass']
+# a handful of p2p/bft tests of the repository are wall-clock sensitive (1 s handshake timeout): re-run the packages of
+# the non-passing tests once before reporting, so that a loaded machine does not look like a regression
+if bad and len(bad) <= 10:
+    import subprocess, os
+    for pkg in sorted(set(t.split('::')[0] for t in bad)):
+        rel = './' + pkg.split('github.com/canopy-network/canopy/')[-1]
+        out = subprocess.run(['go','test','-mod=mod','-json','-vet=off','-count=1',rel], cwd=os.environ.get('BASELINE_REPO','/repo'), stdout=subprocess.PIPE, text=True).stdout
+        for l in out.splitlines():
+            try: e=json.loads(l)
+            except Exception: continue
+            if e.get('Test') and e.get('Action') in('pass','fail','skip'):
+                res[e['Package']+'::'+e['Test']]=e['Action']
+    bad=[t for t in sorted(want) if res.get(t)!='pass']
 print('stable_pass=%d passed=%d not-passing=%d'%(len(want),len(want)-len(bad),len(bad)))
 for t in bad[:40]: print('  ',t,res.get(t))
 sys.exit(1 if bad else 0)
